@@ -71,6 +71,11 @@ class FrontEndSpec(Spec):
         self.name = name
         self.max_len = max_len
         self.min_len = min_len
+        self.max_cost = 3 if max_len <= 2 else 4
+
+    def cost(self, ev):
+        return outcomes.kind_cost(ev) if ev in outcomes.KINDS else 2
+
         self.max_cost = 99
         self.rule = ('history = sequence of <= %d doctests over the outcome kinds %r, each module run under styles %r x '
                      'options %r through both front ends; non-trivial = configuration with at least two different '
